@@ -60,6 +60,7 @@ const char *K_STUCK = "C27/request-after-exhausted-retries-never-dispatched";
 // instead): evcon->requests.tqh_last is left pointing into the stack frame; the next evhttp_make_request on the connection writes through it
 // and the request is lost (never dispatched, never completed, leaked)
 const char *K_CANCEL_CF = "C27/cancel-queued-in-connect-failure-callback-loses-later-request";
+bool g_cancelled_in_cf_cb;   // the current run did that (picks the key of whatever breaks afterwards)
 enum CFault { CF_NONE, CF_SOCKET, CF_CONNECT, CF_FAMILY, CF__N };
 const char *CFN[] = {"none", "socket()-fails", "connect()-fails-at-once", "family-mismatch"};
 const char *K_TEARDOWN_LEAK = "C27/leak-teardown-while-deferred-connect-error-pending";
@@ -119,7 +120,7 @@ struct RunA {
           ReqRec *t = w->recs[j]; bool would = t->req && !t->cb_calls && !t->cancelled && !t->abandoned;
           if (would && req && r->code == 0) {   // connect-failure path: listed finding (the connection's request queue is corrupted)
             if (verif_known(K_CANCEL_CF)) { verif_known_skipped(K_CANCEL_CF); break; }
-            me->cancelled_in_cf_cb = true;
+            me->cancelled_in_cf_cb = g_cancelled_in_cf_cb = true;
           }
           me->cancel(t, "in-callback");
         }
@@ -294,7 +295,7 @@ struct RunA {
 
   void run() {
     w.backend = p.backend; w.prop = "C27"; w.user = this; w.on_complete = on_complete;
-    sim_script_clear();
+    sim_script_clear(); g_cancelled_in_cf_cb = false;
     for (int i = 0; i < SYS__N; i++) sim_sys_calls[i] = 0;
     CHECK(w.open_base(), "harness/base", "event_base_new failed");
     prep = evwatch_prepare_new(w.base, prep_cb, this); user_ev = event_new(w.base, -1, 0, user_cb, this);
@@ -537,7 +538,7 @@ void quiet_log(int sev, const char *msg) { if (sev >= EVENT_LOG_ERR) { snprintf(
 void fatal_cb(int) {
   std::string fn(g_last_err); size_t c = fn.find(':'); if (c != std::string::npos) fn.resize(c);
   for (auto &ch : fn) if (!isalnum((unsigned char)ch) && ch != '_') ch = '_';
-  std::string key = "C27/fatal-" + fn;
+  std::string key = g_cancelled_in_cf_cb ? std::string(K_CANCEL_CF) : "C27/fatal-" + fn;
   VERIF_FAIL(key.c_str(), "libevent reported a fatal internal error: %s", g_last_err);
 }
 }  // namespace
